@@ -1158,6 +1158,19 @@ func (r *c1Run) lsFiles(ctx context.Context, w *c1WS) {
 		fmt.Printf("VERIF-REPLAY generator problem: %v\n", err)
 		return
 	}
+	// (ca-R4) FileInfoPaths: the path of every file info, in the order given, nothing else
+	listedPaths := bufmodule.FileInfoPaths(fileInfos)
+	pathsOK := len(listedPaths) == len(fileInfos)
+	for i := 0; pathsOK && i < len(fileInfos); i++ {
+		pathsOK = listedPaths[i] == fileInfos[i].Path()
+	}
+	if !pathsOK {
+		var want []string
+		for _, fileInfo := range fileInfos {
+			want = append(want, fileInfo.Path())
+		}
+		r.fail("0 paths", "%s: FileInfoPaths(the %d proto file infos of the workspace) = %q; documented: the Path() of each, in order: %q", w.describe(), len(fileInfos), listedPaths, want)
+	}
 	var imageFileInfos []ImageFileInfo
 	for _, fileInfo := range fileInfos {
 		imageFileInfos = append(imageFileInfos, ImageFileInfoForModuleFileInfo(fileInfo))
@@ -1664,6 +1677,18 @@ func (r *c1Run) familyBuildRecords() {
 	if o := newBuildImageOptions(); o == nil || o.excludeSourceCodeInfo || o.noParallelism {
 		r.fail("0", "newBuildImageOptions() = %+v; want fresh options with nothing set", o)
 	}
+	// (ca-R4) the two build options set exactly their own flag of a fresh options record
+	r.checked += 2
+	o := newBuildImageOptions()
+	WithExcludeSourceCodeInfo()(o)
+	if !o.excludeSourceCodeInfo || o.noParallelism {
+		r.fail("0", "WithExcludeSourceCodeInfo() applied to fresh options gives %+v; documented: only excludeSourceCodeInfo is set", *o)
+	}
+	o = newBuildImageOptions()
+	WithNoParallelism()(o)
+	if o.excludeSourceCodeInfo || !o.noParallelism {
+		r.fail("0", "WithNoParallelism() applied to fresh options gives %+v; documented: only noParallelism is set", *o)
+	}
 }
 
 func TestVerifReplayC01(t *testing.T) {
@@ -1676,9 +1701,9 @@ func TestVerifReplayC01(t *testing.T) {
 	case foreign:
 		// FileAnnotationForErrorWithPos, newFileInfo, fileInfo.Path/ExternalPath, newFileAnnotationOptions
 		r.familyCompileErrors(ctx)
-	case fn == "imageFileInfosWithOnlyTargetsAndTargetImportsRec" || fn == "ImageFileInfosWithOnlyTargetsAndTargetImports" || fn == "appendWellKnownTypeImageFileInfos":
+	case fn == "imageFileInfosWithOnlyTargetsAndTargetImportsRec" || fn == "ImageFileInfosWithOnlyTargetsAndTargetImports" || fn == "appendWellKnownTypeImageFileInfos" || fn == "FileInfoPaths":
 		r.familyLsFiles(ctx)
-	case fn == "newFailedBuildResult" || fn == "newBuildResult" || fn == "newBuildImageOptions":
+	case fn == "newFailedBuildResult" || fn == "newBuildResult" || fn == "newBuildImageOptions" || fn == "WithExcludeSourceCodeInfo" || fn == "WithNoParallelism":
 		r.familyBuildRecords()
 		r.familyBroken(ctx, false, true)
 	case fn == "checkAndSortFiles":
